@@ -8,9 +8,10 @@ STAGED = ("harness runs as in-package tests in a throw-away copy of /repo's work
 
 PROPS = {
     "C13": {
-        "pkg": "internal/plugin",
-        "files": ["plugin/zz_verif_common_test.go", "plugin/zz_verif_C13_test.go"],
-        "run": "TestVerif_C13",
+        "parts": [
+            {"pkg": "internal/plugin", "files": ["plugin/zz_verif_common_test.go", "plugin/zz_verif_C13_test.go"], "run": "TestVerif_C13"},
+            {"pkg": "internal/system", "files": ["system/zz_verif_os_test.go"], "run": "TestVerif_C13os"},
+        ],
         "level": "exploration",
         "quick": {"shards": 4},
         "thorough": {"shards": 16},
@@ -19,7 +20,10 @@ PROPS = {
                  "lengths 48/56/64/128 and every flag, plus rapid-generated lists of up to 40 addresses with a "
                  "drawn permutation/duplication; oracle = set specification (verifref.ExpandPrefixes) + "
                  "permutation invariance + source-error clause. Non-trivial: the list has at least one eligible "
-                 "and one excluded address, or two addresses in one /64. Distinct: FNV-64 of the canonical JSON case."),
+                 "and one excluded address, or two addresses in one /64. OS half (package system): the real rtnetlink addresser with its execute hook "
+                 "answering with generated kernel replies (every address flag bit singly and in pairs, valid-forever, prefix lengths; route dumps "
+                 "with and without a preference attribute); oracle = field-by-field mapping of kernel flags to the address metadata the expansion "
+                 "relies on, and the request sent (family, index, main table). Distinct: FNV-64 of the canonical JSON case."),
         "assumptions": [STAGED, "IPv4-mapped IPv6 addresses are not generated (the OS addressers filter them)"],
         "technique": "bounded-exhaustive enumeration + rapid property-based testing against a set-specification oracle; permutation metamorphic relation",
         "level_text": ("Every address listing up to the stated bound over the pool is checked exhaustively and large random "
@@ -27,9 +31,10 @@ PROPS = {
         "level_note": "Trusts the reference expansion in kit/verifref (written from the statement) and net/netip; the address source is injected through the plugin's exported Addrs field as Prepare would.",
     },
     "C14": {
-        "pkg": "internal/plugin",
-        "files": ["plugin/zz_verif_common_test.go", "plugin/zz_verif_C13_test.go", "plugin/zz_verif_C14_test.go"],
-        "run": "TestVerif_C14",
+        "parts": [
+            {"pkg": "internal/plugin", "files": ["plugin/zz_verif_common_test.go", "plugin/zz_verif_C13_test.go", "plugin/zz_verif_C14_test.go"], "run": "TestVerif_C14"},
+            {"pkg": "internal/system", "files": ["system/zz_verif_os_test.go"], "run": "TestVerif_C14os"},
+        ],
         "level": "exploration",
         "quick": {"shards": 4},
         "thorough": {"shards": 16},
@@ -44,9 +49,10 @@ PROPS = {
         "level_note": "Trusts verifref.BestRDNSS (written from the statement and reference.toml) and net/netip; address source injected through RDNSS.Addrs.",
     },
     "C15": {
-        "pkg": "internal/plugin",
-        "files": ["plugin/zz_verif_common_test.go", "plugin/zz_verif_C13_test.go", "plugin/zz_verif_C15_test.go"],
-        "run": "TestVerif_C15",
+        "parts": [
+            {"pkg": "internal/plugin", "files": ["plugin/zz_verif_common_test.go", "plugin/zz_verif_C13_test.go", "plugin/zz_verif_C15_test.go"], "run": "TestVerif_C15"},
+            {"pkg": "internal/system", "files": ["system/zz_verif_os_test.go"], "run": "TestVerif_C15os"},
+        ],
         "level": "exploration",
         "quick": {"shards": 4},
         "thorough": {"shards": 16},
